@@ -181,6 +181,21 @@ def c11_tower(r, seed, tier, model_ok):
         if [lt, gt, eq].count("V True") != 1: bad2.append(dict(program=progs[6 * i], impl=f"x<y {lt}, y<x {gt}, x=y {eq}", model="exactly one of <, >, = holds", which=["trichotomy"]))
         if lt == "V True" and yz == "V True" and xz != "V True": bad2.append(dict(program=progs[6 * i + 4], impl="x<y, y<z but not x<z", model="transitive", which=["transitivity"]))
         if xx == "V True": bad2.append(dict(program=progs[6 * i + 5], impl="x<x", model="irreflexive", which=["irreflexive"]))
+    # implementation-only: the division law on REAL / mixed operands, on dyadic values where everything is exact:
+    #   a = q * d + r,  q = the quotient truncated toward zero,  |r| < |d|,  r has the sign of a (or is 0)
+    def dy(i, e): return f"(({E(i)} ㅅㅅㅎㄴ) (ㄷ ㅅㅅㅎㄴ {E(e)} ㅅㅎㄷ) ㄱㅎㄷ)" if e else f"({E(i)} ㅅㅅㅎㄴ)"
+    dl = []; dw = []
+    for _ in range(N(tier, 1500, 30000)):
+        e1, e2 = R.choice([0, -1, -3, 2]), R.choice([0, -1, -3, 2]); i = R.randrange(-400, 401); j = R.choice([-1, 1]) * R.randrange(1, 60)
+        fa = Fraction(i) * Fraction(2) ** e1; fd = Fraction(j) * Fraction(2) ** e2; kind = R.randrange(3)
+        ta = E(i) if (kind == 1 and e1 == 0) else dy(i, e1); td = E(j) if (kind == 2 and e2 == 0) else dy(j, e2)
+        if ta == E(i) and td == E(j): td = dy(j, e2) if e2 else f"({E(j)} ㅅㅅㅎㄴ)"      # at least one real operand
+        q = Fraction(int(fa / fd)) if fa / fd >= 0 else -Fraction(int(-fa / fd)); rem = fa - q * fd
+        dl.append(dict(text=call("ㅁㄹ", [call("ㄴㄴ", [ta, td]), call("ㄴㅁ", [ta, td])]), floats=True, trace=False))
+        dw.append(f"V [{vlib.canon_float(float(q))}, {vlib.canon_float(float(rem))}]".replace("F-0", "F0"))
+    da = impl_run(dl)
+    bad3 = [dict(program=c["text"], impl=res(o).replace("F-0", "F0")[:120], model="quotient truncated toward zero, remainder with the dividend's sign: " + w, which=["real-division-law"]) for c, o, w in zip(dl, da, dw) if res(o).replace("F-0", "F0") != w]
+    r.slice("real_division_law", len(dl), len({c["text"] for c in dl}), [dl[0]["text"]], dict(), "ㄴㄴ / ㄴㅁ with at least one real operand on exactly representable dyadic values, all sign combinations, vs exact rational arithmetic", bad3[:40])
     r.slice("order_laws", len(progs), len(set(progs)), [progs[0]], dict(triples=len(fin)), "implementation-only: ㅈ irreflexive, transitive, trichotomous with ㄴ on mixed integer / real operands", bad2[:40])
     if model_ok:
         b = model_run(cases); dist, bad = compare(cases, a, b, fields=("res",))
@@ -309,6 +324,21 @@ def c16_codecs(r, seed, tier, model_ok):
     r.slice("codecs_vs_definition", len(cases), len({c["text"] for c in cases}), [cases[0]["text"], cases[-400]["text"]], dict(kinds),
             "two's complement by int.to_bytes and UTF-8/16/32 by an RFC encoder written in the harness; widths 1..16, boundaries +-3, three byte orders; distinct = distinct programs", bad[:40])
     if model_ok:
+        # UTF-8: the implementation's encoder / decoder against the RFC 3629 model proved in Utf.v (round trip, strictness)
+        u8 = [(s_, utf_encode(s_, 1, None)) for s_, w, o in strs if w == 1]
+        mo = vlib.driver("driver", ["U8\t" + ",".join(str(ord(ch)) for ch in s_) for s_, _ in u8])
+        badu = [dict(program="utf-8 of code points " + str([hex(ord(ch)) for ch in s_]), impl="harness RFC encoder " + str(list(e_)), model=m_, which=["utf8-model"]) for (s_, e_), m_ in zip(u8, mo) if m_ != ",".join(str(b) for b in e_)]
+        rnd = [bytes(R.randrange(256) for _ in range(R.randrange(1, 6))) for _ in range(N(tier, 3000, 60000))] + [b"\xC0\x80", b"\xED\xA0\x80", b"\xF4\x90\x80\x80", b"\xE0\x80\x80", b"\xF0\x80\x80\x80", b"\xEF\xBB\xBF", b"\xF4\x8F\xBF\xBF"]
+        md = vlib.driver("driver", ["U8D\t" + ",".join(str(b) for b in bs) for bs in rnd])
+        dec_cases = [dict(text=f"{bytes_lit(bs)} {codec(0, 1, None)} ㅎㄴ", trace=False) for bs in rnd]; da = impl_run(dec_cases)
+        for bs, m_, o in zip(rnd, md, da):
+            got = res(o)
+            try: py = bs.decode("utf-8"); want_ok = True
+            except UnicodeDecodeError: want_ok = False
+            if (m_ != "REJECT") != want_ok or (got.startswith("V ")) != want_ok: badu.append(dict(program="utf-8 decode of " + str(list(bs)), impl=got[:80], model=m_[:80], which=["utf8-strict-decoder"]))
+            elif want_ok and m_ != "OK " + ",".join(str(ord(ch)) for ch in py): badu.append(dict(program="utf-8 decode of " + str(list(bs)), impl=got[:80], model=m_[:80], which=["utf8-decoder-value"]))
+        r.slice("utf8_vs_proved_model", len(u8) + len(rnd), len(u8) + len(set(rnd)), [str(list(rnd[0]))], dict(encoded_strings=len(u8), byte_strings_decoded=len(rnd), accepted=sum(1 for x in md if x != "REJECT")),
+                "UTF-8 encoding of generated strings and strict decoding of random / malformed byte strings: implementation vs the RFC 3629 model of Utf.v (whose round trip is a theorem)", badu[:40])
         ic = [c for c, w in zip(cases, want) if "ㅁ ㄱㅈㅎㄱ" not in c["text"] and w != "?" and "ㅁㅈㅎㄱ" not in c["text"]]
         ia = [o for c, o, w in zip(cases, a, want) if "ㅁ ㄱㅈㅎㄱ" not in c["text"] and w != "?" and "ㅁㅈㅎㄱ" not in c["text"]]
         b = model_run(ic); dist, bad2 = compare(ic, ia, b, fields=("res",))
